@@ -6,7 +6,8 @@
    C07/Model.v that the correspondence ties execute at binary64. *)
 From Coq Require Import List Arith ZArith Bool Reals.
 From T4V Require Import Base.Scalar C07.Model C07.ProofsAlgebra C07.ProofsComb C07.ProofsMain
-  C07.ProofsGeom C07.ProofsExample C07.ProofsDomain.
+  C07.ProofsGeom C07.ProofsExample C07.ProofsDomain C07.ProofsRhp C07.ProofsDevelop
+  C07.ProofsErrors.
 Import ListNotations.
 Open Scope R_scope.
 
@@ -329,3 +330,186 @@ Theorem C07_lattice_vector : forall (a1 a2 a3 : rvec) (i j k : Z),
   latticeVector RS [a1; a2] [i; j; k] = vadd (vscale (IZR i) a1) (vscale (IZR j) a2).
 Proof. exact lattice_vector. Qed.
 Print Assumptions C07_lattice_vector.
+
+(* ---------- from the RHP / HEX card to the base vectors ---------- *)
+
+(* A LAT=2 cell "-b" whose surface b is an RHP/HEX card v h r s t (15 entries).
+   rhp_cell_surfaces = MacroBodies.rhp, then forcad.p on each facet, then
+   extract_surfaces under the negative literal: the (plane, side) list that
+   develop_lattice hands to hexLatticeBaseVectors (tie:rhpcell observes it at
+   that call).  If r, s, t are perpendicular to h and v + r, v + s, v + t are the
+   feet of the perpendiculars from the axis to the lines of sides a, b, d of a
+   centrally symmetric hexagon about v, that list has eight entries, lists the
+   sides in the order a, a+3, b, b+3, d, d+3, each plane carries its side and
+   is listed with the sense of the centre: the hypotheses of C07_hex_base_vectors *)
+Theorem C07_rhp_cell_hypotheses :
+  forall (c h r s t : rvec) (w : nat -> rvec) (a b d : nat),
+  h <> (0, 0, 0) -> r <> (0, 0, 0) -> s <> (0, 0, 0) -> t <> (0, 0, 0) ->
+  dot r h = 0 -> dot s h = 0 -> dot t h = 0 ->
+  (forall k, wv w (k + 3) = vsub (vscale 2 c) (wv w k)) ->
+  dot (vsub (wv w a) (vadd c r)) r = 0 /\ dot (vsub (wv w (a + 5)) (vadd c r)) r = 0 ->
+  dot (vsub (wv w b) (vadd c s)) s = 0 /\ dot (vsub (wv w (b + 5)) (vadd c s)) s = 0 ->
+  dot (vsub (wv w d) (vadd c t)) t = 0 /\ dot (vsub (wv w (d + 5)) (vadd c t)) t = 0 ->
+  exists surfs,
+    rhp_cell_surfaces RS (params15 c h r s t) = Ok surfs /\ List.length surfs = 8%nat /\
+    (forall i, (i < 6)%nat -> carries h w (pl surfs i) (side_at [a; opp a; b; opp b; d; opp d] i)) /\
+    (forall i, (i < 6)%nat -> sd surfs i = planeSide RS c (pl surfs i) /\ sd surfs i <> 0%Z) /\
+    snd (pl surfs 6) = vscale (1 / norm h) h /\ snd (pl surfs 7) = vscale (1 / norm h) h /\
+    (forall q, pf (pl surfs 6) q = dot (vsub q (vadd c h)) h / norm h) /\
+    (forall q, pf (pl surfs 7) q = dot (vsub q c) h / norm h).
+Proof. exact rhp_cell_hypotheses. Qed.
+Print Assumptions C07_rhp_cell_hypotheses.
+
+(* ... and therefore, for a strictly convex hexagon drawn in the plane through v
+   perpendicular to h, the base vectors computed from the card are the
+   translations across the sides of r and of s, and h *)
+Theorem C07_rhp15_lattice_vectors :
+  forall (c h r s t : rvec) (w : nat -> rvec) (a b d : nat),
+  In [a; opp a; b; opp b; d; opp d] all_listings ->
+  h <> (0, 0, 0) -> r <> (0, 0, 0) -> s <> (0, 0, 0) -> t <> (0, 0, 0) ->
+  dot r h = 0 -> dot s h = 0 -> dot t h = 0 ->
+  (forall k, wv w (k + 3) = vsub (vscale 2 c) (wv w k)) ->
+  dot (vsub (wv w a) (vadd c r)) r = 0 /\ dot (vsub (wv w (a + 5)) (vadd c r)) r = 0 ->
+  dot (vsub (wv w b) (vadd c s)) s = 0 /\ dot (vsub (wv w (b + 5)) (vadd c s)) s = 0 ->
+  dot (vsub (wv w d) (vadd c t)) t = 0 /\ dot (vsub (wv w (d + 5)) (vadd c t)) t = 0 ->
+  (forall k, dot (vsub (wv w k) c) h = 0) ->
+  ((forall k, 0 < det3 (vsub (wv w (k + 1)) (wv w k)) (vsub (wv w (k + 2)) (wv w (k + 1))) h) \/
+   (forall k, det3 (vsub (wv w (k + 1)) (wv w k)) (vsub (wv w (k + 2)) (wv w (k + 1))) h < 0)) ->
+  hexLatticeBaseVectors_rhp RS (params15 c h r s t) = Ok [across c w a; across c w b; h].
+Proof. exact rhp_lattice_vectors. Qed.
+Print Assumptions C07_rhp15_lattice_vectors.
+
+(* nine entries v h r, r perpendicular to h (the regular prism of the manual):
+   the code completes the card with s, t = r rotated by 60 and 120 degrees about
+   h, and the base vectors are a1 = 2 r, a2 = 2 s, a3 = h — the pitch vectors of
+   the MCNP manual; s is r/2 + (sqrt 3 / 2) (h/|h| x r) *)
+Theorem C07_rhp9_lattice_vectors : forall c h r : rvec,
+  h <> (0, 0, 0) -> r <> (0, 0, 0) -> dot r h = 0 ->
+  hexLatticeBaseVectors_rhp RS (params9 c h r) =
+  Ok [vscale 2 r; vscale 2 (rotate RS r (unit_of h) (PI / 3)); h] /\
+  rotate RS r (unit_of h) (PI / 3) =
+  vadd (vscale (1 / 2) r) (vscale (sqrt 3 / 2) (cross (unit_of h) r)).
+Proof. exact rhp9_lattice_vectors. Qed.
+Print Assumptions C07_rhp9_lattice_vectors.
+
+(* ---------- the elements of a hexagonal lattice, end to end on the models ---------- *)
+
+(* develop_lattice_hex = C06's model of develop_lattice (develop_lattice_with,
+   generic in the base vectors, tied there) fed with hexLatticeBaseVectors.  For
+   every admissible prism (hypotheses of C07_hex_base_vectors, six or eight
+   planes) and every FILL array over ranges with one range per base vector and
+   the surplus ranges lo = hi: the generated elements are, in enumeration order,
+   exactly the index tuples of the ranges whose array entry (first index
+   fastest, as for rectangular lattices) is not 0, each once; element idx is the
+   unit cell moved by lattice_point vecs idx = i a1 + j a2 (+ k a3) with a1, a2
+   the translations across the first- and third-listed sides, filled with its
+   entry (own universe: the cell's own material), the filler placed by the fill
+   transformation / TRCL first and the element translation after
+   (D6.elem_located). *)
+Theorem C07_hex_lattice_developed :
+  forall (c u : rvec) (w : nat -> rvec) (l : list nat) (surfs : list rsurf)
+         (cell : M6.lat_cell (T:=R)) (bs : M6.bounds) (spec : list Z),
+  In l all_listings ->
+  (forall i, (i < 6)%nat -> carries u w (pl surfs i) (side_at l i)) ->
+  (forall i, (i < 6)%nat -> sd surfs i = planeSide RS c (pl surfs i) /\ sd surfs i <> 0%Z) ->
+  (forall k, wv w (k + 3) = vsub (vscale 2 c) (wv w k)) ->
+  ((forall k, 0 < det3 (vsub (wv w (k + 1)) (wv w k)) (vsub (wv w (k + 2)) (wv w (k + 1))) u) \/
+   (forall k, det3 (vsub (wv w (k + 1)) (wv w k)) (vsub (wv w (k + 2)) (wv w (k + 1))) u < 0)) ->
+  (List.length surfs = 6%nat \/
+   (List.length surfs = 8%nat /\ dot u (snd (pl surfs 6)) <> 0 /\ dot u (snd (pl surfs 7)) <> 0)) ->
+  M6.lc_fill cell = M6.FSpec bs spec -> bs <> [] -> I6.wf_bounds bs ->
+  Z.of_nat (List.length spec) = M6.size bs ->
+  (List.length surfs / 2 - 1 <= List.length bs)%nat ->
+  Forall I6.trivial_range (skipn (List.length surfs / 2 - 1) bs) ->
+  D6.cell_shape_ok cell ->
+  exists vecs elems,
+    hexLatticeBaseVectors RS surfs = Ok vecs /\
+    List.length vecs = (List.length surfs / 2 - 1)%nat /\
+    nth 0 vecs (0, 0, 0) = proj_par u (if Nat.eqb (List.length surfs) 6 then u else snd (pl surfs 6))
+                                    (across c w (side_at l 0)) /\
+    nth 1 vecs (0, 0, 0) = proj_par u (if Nat.eqb (List.length surfs) 6 then u else snd (pl surfs 6))
+                                    (across c w (side_at l 2)) /\
+    develop_lattice_hex surfs cell = M6.Ok elems /\
+    map (@M6.ne_index R) elems = map fst (filter D6.nonzero (combine (M6.indices bs) spec)) /\
+    NoDup (map (@M6.ne_index R) elems) /\
+    Forall (fun e =>
+      I6.in_ranges (M6.ne_index e) bs /\
+      let v := nth (Z.to_nat (I6.flat_index bs (M6.ne_index e))) spec 0%Z in
+      v <> 0%Z /\ D6.elem_located cell vecs v e) elems.
+Proof. exact hex_lattice_developed. Qed.
+Print Assumptions C07_hex_lattice_developed.
+
+(* ---------- outside the family: the error behaviour of the model ---------- *)
+
+(* a plane list that has neither six nor eight entries: AssertionError *)
+Theorem C07_base_vectors_wrong_count : forall surfs : list rsurf,
+  List.length surfs <> 6%nat -> List.length surfs <> 8%nat ->
+  hexLatticeBaseVectors RS surfs = Err EAssert.
+Proof. exact base_vectors_wrong_count. Qed.
+Print Assumptions C07_base_vectors_wrong_count.
+
+(* pointInPlaneIntersection raises exactly on parallel planes (ZeroDivisionError) *)
+Theorem C07_intersection_error_iff : forall p1 n1 p2 n2 : rvec,
+  (pointInPlaneIntersection RS (p1, n1) (p2, n2) = Err EZeroDiv <-> cross n1 n2 = (0, 0, 0)) /\
+  (cross n1 n2 <> (0, 0, 0) -> exists L, pointInPlaneIntersection RS (p1, n1) (p2, n2) = Ok L).
+Proof. exact intersection_error_iff. Qed.
+Print Assumptions C07_intersection_error_iff.
+
+(* hexSortSides on six planes has three outcomes: ZeroDivisionError iff two
+   planes of different groups are parallel; else the dictionary with exactly six
+   intersections, or LatticeError *)
+Theorem C07_sort_sides_outcomes : forall surfs : list rsurf,
+  List.length surfs = 6%nat ->
+  ((exists i j, (i < j < 6)%nat /\ (i / 2 <> j / 2)%nat /\
+                cross (snd (pl surfs i)) (snd (pl surfs j)) = (0, 0, 0)) /\
+   hexSortSides RS surfs = Err EZeroDiv) \/
+  ((forall i j, (i < j < 6)%nat -> (i / 2 <> j / 2)%nat ->
+                cross (snd (pl surfs i)) (snd (pl surfs j)) <> (0, 0, 0)) /\
+   ((exists adj, hexSortSides RS surfs = Ok adj /\ count_some adj = 6%nat) \/
+    hexSortSides RS surfs = Err ELattice)).
+Proof. exact sort_sides_outcomes. Qed.
+Print Assumptions C07_sort_sides_outcomes.
+
+(* degenerate prisms: two side planes of different groups parallel =>
+   ZeroDivisionError from hexLatticeBaseVectors, whatever the other planes *)
+Theorem C07_base_vectors_parallel_planes : forall surfs : list rsurf,
+  List.length surfs = 6%nat \/ List.length surfs = 8%nat ->
+  (exists i j, (i < j < 6)%nat /\ (i / 2 <> j / 2)%nat /\
+               cross (snd (pl surfs i)) (snd (pl surfs j)) = (0, 0, 0)) ->
+  hexLatticeBaseVectors RS surfs = Err EZeroDiv.
+Proof. exact base_vectors_parallel_planes. Qed.
+Print Assumptions C07_base_vectors_parallel_planes.
+
+(* ... which is what a non strictly convex hexagon gives: two consecutive sides
+   on one line (a flat vertex) have parallel planes *)
+Theorem C07_collinear_sides_parallel : forall (u q0 q1 q2 : rvec) (pa pb : rplane),
+  cross (vsub q1 q0) u <> (0, 0, 0) -> vsub q2 q1 <> (0, 0, 0) ->
+  cross (vsub q2 q1) (vsub q1 q0) = (0, 0, 0) ->
+  dot (snd pa) u = 0 -> on_plane q0 pa -> on_plane q1 pa ->
+  dot (snd pb) u = 0 -> on_plane q1 pb -> on_plane q2 pb ->
+  cross (snd pa) (snd pb) = (0, 0, 0).
+Proof. exact collinear_sides_parallel. Qed.
+Print Assumptions C07_collinear_sides_parallel.
+
+(* the while loop of hexVertices, on EVERY dictionary with exactly six
+   intersections among the twelve pairs of different groups (924 dictionaries x 6
+   first sides, by vm_compute): it ends, with six vertices, iff the intersections
+   form one closed tour of the six sides; otherwise it never ends (ELoop) *)
+Theorem C07_walk_ends_iff_closed_tour : forall (ps : list (nat * nat)) (first : nat),
+  In ps (sublists 6 cross_pairs) -> (first < 6)%nat ->
+  (closed_tour ps = true /\
+   exists ks, hex_vertices_abs (pair_in ps) first = Ok ks /\ List.length ks = 6%nat) \/
+  (closed_tour ps = false /\ hex_vertices_abs (pair_in ps) first = Err ELoop).
+Proof. exact walk_ends_iff_closed_tour. Qed.
+Print Assumptions C07_walk_ends_iff_closed_tour.
+
+(* any other number of intersections: LatticeError before the traversal *)
+Theorem C07_sort_count_error : forall adjb : nat -> nat -> bool,
+  (exists adj, sort_sides_abs adjb = Ok adj /\ count_some adj = 6%nat) \/
+  sort_sides_abs adjb = Err ELattice.
+Proof. exact sort_count_error. Qed.
+Print Assumptions C07_sort_count_error.
+
+Example C07_open_chain_never_ends :
+  hex_vertices_abs (pair_in [(0, 2); (0, 4); (1, 3); (1, 5); (2, 4); (3, 5)]%nat) 0 = Err ELoop.
+Proof. vm_compute. reflexivity. Qed.
